@@ -900,6 +900,61 @@ theorem gaps_roundtrip : decodeFrame leGap (encode "3.0" gaps) = some gaps := by
 
 theorem gapsAds_roundtrip : decodeFrame leGap (encode "3.0" gapsAds) = some gapsAds := by decide
 
+/-! ### no pressure recorded at any point (S54-C06)
+
+With every point an adsorption point the document carries no `branch` key and the reader guesses the marks from the pressures.  A table
+whose pressure column is missing throughout has no maximum to split at; `split_ads_data` returns "all adsorption" for it (before the
+repair pandas' `idxmax` raised ValueError there, i.e. the library refused the document it had itself written).  With that rule the
+hypothesis `splitAds … = replicate … 0` of `decode_encode_points_ads` is DISCHARGED for such tables, whatever the order key. -/
+
+theorem splitAds_no_pressure (le : Scalar → Scalar → Bool) (ps : List Scalar) (h : ∀ p ∈ ps, p.missing = true) :
+    splitAds le ps = List.replicate ps.length 0 := by
+  have hall : ps.all Scalar.missing = true := List.all_eq_true.2 h
+  simp [splitAds, hall]
+
+/-- a table without any recorded pressure, all points adsorption (the case the reader has to guess), comes back exactly — through
+`decode` and through the step-by-step reader — with NO hypothesis on the guess -/
+theorem decode_encode_points_no_pressure (le : Scalar → Scalar → Bool) (v : String) (i : Iso) (hi : InDomain i)
+    (rows : List Row) (hp : i.payload = .points rows) (hne : rows ≠ [])
+    (hno : ∀ r ∈ rows, r.p.missing = true) : decode le (encode v i) = some i := by
+  refine decode_encode_points le v i hi rows hp hne ?_
+  by_cases hdes : rows.any (fun r => decide (r.branch = 1)) = true
+  · exact Or.inl hdes
+  · right
+    rw [← List.length_map (f := (·.p))]
+    exact splitAds_no_pressure le _ (by
+      intro p hp'
+      obtain ⟨r, hr, rfl⟩ := List.mem_map.1 hp'
+      exact hno r hr)
+
+theorem decodeFrame_encode_points_no_pressure (le : Scalar → Scalar → Bool) (v : String) (i : Iso) (hi : InDomain i)
+    (rows : List Row) (names : List String) (hp : i.payload = .points rows) (hx : Rect names rows) (hne : rows ≠ [])
+    (hno : ∀ r ∈ rows, r.p.missing = true) : decodeFrame le (encode v i) = some i := by
+  rw [decodeFrame_encode le v i hi (fun rows' hp' => by rw [hp] at hp'; cases hp'; exact ⟨names, hx⟩)]
+  exact decode_encode_points_no_pressure le v i hi rows hp hne hno
+
+/-- non-vacuity: the witness of the finding — `PointIsotherm(pressure=[nan, nan, nan], loading=[1, 2, 3], branch=[0, 0, 0])` -/
+def noPressure : Iso :=
+  ⟨[("material", .scalar (.str "m"))],
+   .points [⟨.nan, .int 1, 0, []⟩, ⟨.nan, .int 2, 0, []⟩, ⟨.nan, .int 3, 0, []⟩]⟩
+
+theorem noPressure_inDomain : InDomain noPressure := by
+  refine ⟨by decide, by decide, ?_⟩
+  intro r hr
+  simp only [noPressure, List.mem_cons, List.not_mem_nil, or_false] at hr
+  rcases hr with rfl | rfl | rfl <;> exact ⟨⟨by decide, by decide⟩, by decide⟩
+
+theorem noPressure_roundtrip : decodeFrame leGap (encode "3.0" noPressure) = some noPressure ∧
+    decode leGap (encode "3.0" noPressure) = some noPressure := by decide
+
+/-- why the rule is needed: the plain "split at the first maximum" rule, with the missing pressure below every number, takes the FIRST
+point of such a table as the maximum and calls the whole table desorption — the guard is what makes the guess agree with the marks -/
+theorem first_maximum_rule_alone_fails :
+    (let ps : List Scalar := [.nan, .nan, .nan]
+     let infl := firstMaxIdx leGap ps + 1
+     (if infl = ps.length then List.replicate ps.length 0
+      else (List.range ps.length).map fun i => if (if infl = 1 then 0 else infl) ≤ i then 1 else 0)) = [1, 1, 1] := by decide
+
 /-- `fillna(0)` on a cell -/
 def fill0 : Scalar → Scalar
   | .nan => .int 0
